@@ -280,8 +280,9 @@ theorem pure_arg_class : ∀ (a : XArg), pureArg a = true → plainArg a = true 
     refine ⟨?_, ?_, ?_⟩
     · simp only [plainArg, Bool.and_eq_true, decide_eq_true_eq]
       exact ⟨by omega, h.1⟩
-    · simpa [hasQ] using h.2.1
-    · simpa [hasC] using h.2.2
+    · have : 0 < n := by omega
+      simp [hasQ, this, h.2.1]
+    · simp [hasC, h.2.2]
   | .int _, hp => by simp [pureArg] at hp
   | .str _, hp => by simp [pureArg] at hp
   | .chr _, hp => by simp [pureArg] at hp
